@@ -285,7 +285,8 @@ def _brief(x, n=400):
 
 
 def write_evidence(prop, tier, level, coverage, wall_s, violations, assumptions=()):
-    os.makedirs(os.path.join(VERIF, "evidence"), exist_ok=True)
+    evdir = os.environ.get("VERIF_EVIDENCE_DIR") or os.path.join(VERIF, "evidence")
+    os.makedirs(evdir, exist_ok=True)
     ev = {
         "property_id": prop,
         "tier": tier,
@@ -296,7 +297,7 @@ def write_evidence(prop, tier, level, coverage, wall_s, violations, assumptions=
         "wall_s": round(wall_s, 2),
         "violations": int(violations),
     }
-    p = os.path.join(VERIF, "evidence", prop + ".json")
+    p = os.path.join(evdir, prop + ".json")
     tmp = p + ".tmp"
     with open(tmp, "w") as f:
         json.dump(ev, f, indent=1, default=str)
